@@ -39,10 +39,11 @@ func g8BodyHash(segs [][]byte) []byte {
 }
 
 func g8RunC40Block(f []string) string {
-	if len(f) < 8 || (f[1] != "c" && f[1] != "t") {
+	era, okEra := g8Eras[f[1]]
+	if len(f) < 8 || !okEra {
 		return "bad-op"
 	}
-	tpraos := f[1] == "t"
+	tpraos := era.tpraos
 	useed, ok := unhex(f[2])
 	slot, e1 := strconv.ParseUint(f[3], 10, 64)
 	spk, e2 := strconv.ParseUint(f[4], 10, 64)
@@ -57,7 +58,7 @@ func g8RunC40Block(f []string) string {
 	switch {
 	case kind == "seg" && len(tam) == 2:
 		n, err := strconv.Atoi(tam[1])
-		if err != nil || n < 0 || n > 3 || (tpraos && n > 2) {
+		if err != nil || n < 0 || n >= era.nseg {
 			return "bad-op"
 		}
 		segIdx = n
@@ -80,13 +81,12 @@ func g8RunC40Block(f []string) string {
 		return "bad-op"
 	}
 	u := c40Get(useed)
+	blockType := era.blockType
+	segs := [][]byte{{0x80}, {0x80}, {0xa0}, {0x80}}[:era.nseg]
+	segs = append([][]byte{}, segs...)
 	mode := consensus.ConsensusModeCPraos
-	blockType := uint(ledger.BlockTypeBabbage)
-	segs := [][]byte{{0x80}, {0x80}, {0xa0}, {0x80}}
 	if tpraos {
 		mode = consensus.ConsensusModeTPraos
-		blockType = uint(ledger.BlockTypeShelley)
-		segs = [][]byte{{0x80}, {0x80}, {0xa0}}
 	}
 	coeff := big.NewRat(99, 100)
 	hot := u.kesP[0]
@@ -103,10 +103,7 @@ func g8RunC40Block(f []string) string {
 	for _, s := range segs {
 		bodySize += uint64(len(s))
 	}
-	proto := uint64(8)
-	if tpraos {
-		proto = 2
-	}
+	proto := era.proto
 	hdr, _, err := builder.BuildHeader(consensus.BuildHeaderInput{
 		Slot: slot, BlockNumber: 77, PrevHash: c40Atom("prev"), EpochNonce: nonce,
 		PoolStake: stake, TotalStake: stake, BlockBodyHash: g8BodyHash(segs), BlockBodySize: bodySize,
@@ -255,7 +252,7 @@ func g8RunC40Block(f []string) string {
 }
 
 func g8GenC40Block(r *Rand, emit func(string), useed string) {
-	mode := Pick(r, "c", "c", "t")
+	mode := g8EraNames[r.Intn(len(g8EraNames))]
 	spk := Pick(r, uint64(129600), 100, 1, 3600)
 	kesT := uint64(Pick(r, 0, 1, 5, 62, 63, r.Intn(64)))
 	ocPeriod := uint64(r.Intn(300))
@@ -266,23 +263,44 @@ func g8GenC40Block(r *Rand, emit func(string), useed string) {
 	if r.Chance(1, 10) && cur > 0 {
 		cur--
 	}
+	edge := false
+	if r.Chance(1, 4) {
+		// the edges of the certificate window; the early side signed with the un-evolved key
+		edge = true
+		if ocPeriod == 0 {
+			ocPeriod = 1 + uint64(r.Intn(300))
+		}
+		switch r.Intn(4) {
+		case 0:
+			cur, kesT = ocPeriod-1, 0
+		case 1:
+			cur, kesT = ocPeriod, 0
+		case 2:
+			cur, kesT = ocPeriod+1, 1
+		default:
+			cur, kesT = ocPeriod+63, 63
+		}
+	}
 	slot := cur*spk + uint64(r.Intn(int(spk)))
+	if r.Chance(1, 3) {
+		slot = cur*spk + spk - 1
+	}
 	if slot == 0 {
 		slot = 1
 	}
 	tam := "none"
+	if edge && r.Chance(2, 3) {
+		emit(fmt.Sprintf("blk %s %s %d %d %d %d %s", mode, useed, slot, spk, ocPeriod, kesT, tam))
+		return
+	}
 	switch r.Intn(6) {
 	case 0, 1:
 		tam = c40Tampers[r.Intn(len(c40Tampers))]
-		if mode == "c" && g8TpraosOnly(tam) {
+		if !g8Eras[mode].tpraos && g8TpraosOnly(tam) {
 			tam = "bodyHash"
 		}
 	case 2:
-		n := 4
-		if mode == "t" {
-			n = 3
-		}
-		tam = fmt.Sprintf("seg %d", r.Intn(n))
+		tam = fmt.Sprintf("seg %d", r.Intn(g8Eras[mode].nseg))
 	case 3, 4:
 		tam = fmt.Sprintf("flip %d %d", r.Intn(900), r.Intn(8))
 	}
